@@ -58,6 +58,14 @@ Lemma call_skeletons :
      "fread((data), 1, (size_t)(length), (info->file_external))"%string].
 Proof. repeat split; reflexivity. Qed.
 
+(** how the three places of mfgr.c that need the image's fill pixel -- GRsetchunk (fill pixel of the chunked element),
+    GRwriteimage and GRreadimage (contiguous images) -- test the result of the attribute lookup: GRfindattr returns the
+    attribute's INDEX or FAIL, so all three must compare with FAIL, and in the same way *)
+Lemma fill_lookup_uniform :
+  GRreadimage_q_conds = ["(at_index = GRfindattr(riid, 'FillValue')) != (-1)"%string] /\
+  GRsetchunk_q_conds = GRreadimage_q_conds /\ GRwriteimage_q_conds = GRreadimage_q_conds.
+Proof. repeat split; reflexivity. Qed.
+
 Lemma xfile_write_spec : forall data f a k,
   xfile_write f a data k = if (a <=? k) && (k <? a + Z.of_nat (List.length data)) then nth (Z.to_nat (k - a)) data 0 else f k.
 Proof.
